@@ -377,6 +377,8 @@ def read_rest(src):
             info["pins"].append(("url", ast.unparse(c.args[0]) if c.args else "", "'{host}{uri}'.format(host=host, uri=uri)"))
             info["pins"].append(("params", ast.unparse(_kw(c, "params")) if _kw(c, "params") else "", "rest_helpers.flatten_query_params(query_params, strict=True)"))
             info["data"] = ast.unparse(_kw(c, "data")) if _kw(c, "data") is not None else None
+            info["kwargs"] = [k.arg or "**" for k in c.keywords]
+            info["stream_kw"] = ast.unparse(_kw(c, "stream")) if _kw(c, "stream") is not None else None
             asg = {getattr(s.targets[0], "id", ""): ast.unparse(s.value) for s in resp.body if isinstance(s, ast.Assign)}
             info["pins"].append(("uri/method", [asg.get("uri"), asg.get("method")], ["transcoded_request['uri']", "transcoded_request['method']"]))
         if not raises:
@@ -430,8 +432,18 @@ def run_library(job):
             if job.get("fixed_reply") and ms["name"] in job["fixed_reply"]:
                 rb, reply_json, reply_proto_names = job["fixed_reply"][ms["name"]]
                 reply = d.parse(ms["output"], rb)
+            stream_b64 = None
+            if ms["server_streaming"] and not ms["client_streaming"] and O.bindings_of(ms):
+                # server-streaming over REST: the reply is a JSON array, the call returns an iterator of the declared type
+                items = [make_reply(r, d, ms) for _ in range(r.randint(1, 3))]
+                stream_b64 = [d.b64(x[0]) for x in items]
+                reply, reply_proto_names = None, False
+                reply_json = "[" + ",".join(json.dumps({k: v for k, v in json.loads(x[1]).items()} if not x[2] else
+                                                       json.loads(json_format.MessageToJson(x[0]))) for x in items) + "]"
             spec = {"service_module": SVC_MOD, "client": CLIENT, "transport": "rest", "method": ms["py"],
                     "http_default": {"status": 200, "body": reply_json}}
+            if stream_b64 is not None:
+                spec["consume"] = "stream"
             cls = f"{A.PYPKG}:{ms['input'].split('.')[-1]}"
             if ms["client_streaming"]:
                 spec["request"] = {"mode": "stream", "cls": cls, "stream": [d.b64(m)]}
@@ -442,7 +454,8 @@ def run_library(job):
             calls.append(spec)
             # msg_b64 is the request the transport has to put on the wire: the one AFTER the pre-interceptor
             meta.append({"method": ms["name"], "family": fam, "msg_b64": d.b64(m), "reply_b64": d.b64(reply) if reply is not None else None,
-                         "reply_proto_names": reply_proto_names, "intercept": intercept, "caller_b64": d.b64(caller) if intercept else None})
+                         "reply_proto_names": reply_proto_names, "intercept": intercept, "caller_b64": d.b64(caller) if intercept else None,
+                         "reply_stream_b64": stream_b64})
     root = gen.case_dir(f"c04-{idx}-{int(numeric)}-{job.get('seed_tag', '')}")
     try:
         gen.materialize(out, root)
@@ -527,6 +540,10 @@ def evaluate(ctx, jobs, results, tag):
                 checks.append((f"T1 {lbl}: __REQUIRED_FIELDS_DEFAULT_VALUES {b['table']}", f"table_eqb (defaults_table {mid}) {tbl}"))
                 checks.append((f"T1 {lbl}: body JSON method present={b['body_json']}", f"Bool.eqb (body_spec {mid}) {coq.b(b['body_json'])}"))
                 checks.append((f"T1 {lbl}: data=body passed={rt.get('data')}", f"Bool.eqb (body_spec {mid}) {coq.b(rt.get('data') == 'body')}"))
+                checks.append((f"T1 {lbl}: session call keywords {rt.get('kwargs')} (server_streaming={ms['server_streaming']})",
+                               f"list_eqb String.eqb (response_kwargs (body_spec {mid}) false {coq.b(ms['server_streaming'])}) {coq.slist(rt.get('kwargs') or [])}"))
+                if rt.get("stream_kw") not in (None, "True"):
+                    pins_bad.append(f"{lbl}: stream={rt.get('stream_kw')}")
                 if b["update"] != (b["table"] is not None):
                     pins_bad.append(f"{lbl}: query_params.update called={b['update']} but table present={b['table'] is not None}")
                 if any(v is not numeric for v in b["ints"]) or len(b["ints"]) != (2 if b["body_json"] else 1):
@@ -553,7 +570,8 @@ def evaluate(ctx, jobs, results, tag):
                 case.update({"intercept": c["intercept"], "caller_b64": c["caller_b64"],
                              "caller_request": json_format.MessageToDict(d.parse(ms["input"], c["caller_b64"]), preserving_proto_field_name=True)})
             binds = O.bindings_of(ms)
-            feats = [f"family={c['family']}", f"bindings={len(binds)}", "numeric" if numeric else "names"]
+            feats = [f"family={c['family']}", f"bindings={len(binds)}", "numeric" if numeric else "names",
+                     "server-streaming" if ms["server_streaming"] else "client-streaming" if ms["client_streaming"] else "unary"]
             if c["ok"] and len(c["http"]) == 1:
                 feats.append("verb=" + c["http"][0]["verb"].lower())
             elif not c["ok"]:
@@ -579,7 +597,13 @@ def evaluate(ctx, jobs, results, tag):
                         probs.append((f"Content-Type {ct!r}", None))
                     # the reply decodes into the declared response type
                     got = (c["result"] or [{}])[0]
-                    if c["reply_b64"] is None:
+                    if c.get("reply_stream_b64") is not None:
+                        want = [d.parse(ms["output"], b) for b in c["reply_stream_b64"]]
+                        have = [d.parse(ms["output"], x["b64"]) for x in got.get("items", []) if x.get("kind") == "msg"] if got.get("kind") == "stream" else None
+                        if have != want:
+                            probs.append((f"server-streaming JSON array reply of {len(want)} {ms['output']} messages did not decode into the declared "
+                                          f"response type: client returned {str(got)[:200]}", None))
+                    elif c["reply_b64"] is None:
                         if got.get("kind") != "none":
                             probs.append((f"void method returned {got.get('kind')}", None))
                     elif got.get("kind") != "msg" or d.parse(ms["output"], got["b64"]) != d.parse(ms["output"], c["reply_b64"]):
@@ -738,6 +762,13 @@ def witness_api():
     pl.field("parent", 1, "string").field("kind", 2, ("enum", kind)).field("sub", 3, sub.fqn).field("filter", 4, "string")
     svc.rpc("Plain", pl.fqn, rep.fqn, http=("get", "/v1/{parent=shelves/*}/things"))
     svc.rpc("PlainBody", pl.fqn, rep.fqn, http=("post", "/v1/{parent=shelves/*}/things:search"), body="*")
+    # server-streaming rpcs over REST with body "*", a named body field and no body (seeded change C04-j: the body of a
+    # streaming call must reach the wire like that of a unary call)
+    w = f.message("WatchRequest"); w.field("name", 1, "string", required=True).field("sub", 2, sub.fqn).field("filter", 3, "string")
+    w.field("kind", 4, ("enum", kind))
+    svc.rpc("Watch", w.fqn, rep.fqn, ss=True, http=("post", "/v1/{name=items/*}:watch"), body="*")
+    svc.rpc("Tail", w.fqn, rep.fqn, ss=True, http=("post", "/v1/{name=items/*}:tail"), body="sub")
+    svc.rpc("Follow", w.fqn, rep.fqn, ss=True, http=("get", "/v1/{name=items/*}:follow"))
     e = f.message("EchoRequest"); e.field("name", 1, "string")
     kr = f.message("KwReply"); kr.field("ignore_unknown_fields", 1, "string").field("note", 2, "string")
     svc.rpc("Echo", e.fqn, kr.fqn, http=("get", "/v1/{name=items/*}:echo"))
@@ -762,6 +793,10 @@ def run_witnesses(ctx):
     # query field and body field all change, and the wire has to carry the request after the hook
     fixed["Crc"].append({"caller_b64": d.b64(d.new(P + ".CrcRequest", name="items/a", data_crc32c=1)), "intercept": "copy",
                          "msg_b64": d.b64(d.new(P + ".CrcRequest", name="items/b", data_crc32c=7, utf8string_value="z"))})
+    watch = d.new(P + ".WatchRequest", name="items/i7", filter="state=open", kind=1)
+    setattr(watch.sub, "class", "c7"); watch.sub.count = 7
+    for mname in ("Watch", "Tail", "Follow"):
+        fixed[mname] = [d.b64(watch)]
     plain = d.new(P + ".PlainRequest", parent="shelves/s1", kind=2, filter="x")
     plain.sub.count = 4
     fixed["Plain"] = [d.b64(plain), d.b64(d.new(P + ".PlainRequest", parent="shelves/s1"))]
